@@ -37,6 +37,13 @@ theorem parseDeclarator_print (d : Decl) (hw : wf .concrete d = true) :
   | none => exact .inl rfl
   | some x => exact .inr (by rw [parse_print_sound .concrete d [.stop] hw rfl rfl _ x h])
 
+/-- **Whatever the parser returns is a declarator of C** (soundness, for EVERY token string, not only printed ones): a result
+of `parseDeclarator` in either form is well-formed — its leaf is an identifier (concrete) or absent (abstract), a pointer
+declarator directly under an array or function suffix is parenthesised, parentheses never wrap nothing, `...` follows a
+parameter, every parameter declarator is again well-formed in one of the two forms. -/
+theorem parse_result_wellformed (form : Form) (f : Nat) (ts : List Tok) (d : Decl) (r : List Tok)
+    (h : parseD form f ts = some (d, r)) : wf form d = true := (snd f).d form ts d r h
+
 /-- the speculative parses never change the outcome: a printed ABSTRACT declarator is not also a concrete one (so the
 order "concrete first" of `parseParameterDeclaration` is immaterial) -/
 theorem abstract_is_not_concrete (d : Decl) (k : List Tok) (hw : wf .abstract d = true) (hk : Fol k = true) (f : Nat) :
